@@ -109,6 +109,12 @@ def load_corpus():
 # ---------------------------------------------------------------------------------------------
 def compile_program(ctx, name, tus, flags, rejected=None):
     """tus: list of (filename, source text).  Returns exe path or None."""
+    if core.REPO != "/repo":
+        # objects and executables of a scratch tree (VERIF_REPO) live beside, not over, those of /repo:
+        # the warm cache of /repo survives, and two trees can be checked at the same time
+        name = f"{name}-{core.sha(os.path.abspath(core.REPO))[:8]}"
+    if not ctx.quick:
+        name += "-thorough"        # the two tiers may run side by side
     inc = ctx.shark_h()
     allflags = ctx.BASE_FLAGS + ctx.SAN_FLAGS + list(flags) + \
         ["-I" + inc, "-I" + os.path.join(core.REPO, "include"), "-I" + os.path.join(core.VERIF, "harness")]
